@@ -50,7 +50,12 @@ def processLine (line : String) : String :=
     if str j "reopen" != "ok" then s!"PROP C01 store-does-not-reopen-after-crash {tag} err={str j "reopen"}"
     else if str j "integrity" != "ok" then s!"PROP C01 database-corrupt-after-crash {tag} integrity={str j "integrity"}"
     else
-    let sends := (arr j "sends").filterMap sendOfJson
+    -- an operation on a lease that was acknowledged as acked just before: it must be refused. Acknowledged, it promises a
+    -- redelivery / a dead-letter entry of a message that is delivered, which no restart can make true
+    match (arr j "sends").find? (fun s => bool s "spent" && bool s "done" && nat s "status" == 204) with
+    | some s => s!"PROP C01 operation-on-a-spent-lease-acknowledged {tag} kind={str s "kind"} key={str s "key"}"
+    | none =>
+    let sends := ((arr j "sends").filter (fun s => !bool s "spent")).filterMap sendOfJson
     let script := sends.map (·.1)
     let sent : List Sent := sends.map fun s => ⟨s.1, s.2.1⟩
     let after0 := (arr j "after").map msgOfJson
